@@ -6,7 +6,7 @@ import subprocess
 
 import vlib
 import steps
-from steps import lean_step, tie_H, TRUSTED_COMMON
+from steps import lean_step, tie_H, tie_A, TRUSTED_COMMON
 
 
 def base_cov(res, modelled_not_verified, partial=()):
@@ -29,7 +29,80 @@ def c09(res, thorough):
     ])
 
 
+def c25(res, thorough):
+    import purespec
+    base_cov(res, ["inline-asm bsr/bsf variants of MSB/LSB are tied to the translated portable model by differential runs only",
+                   "big-endian branches (not compiled on amd64)", "splitter classes are hand models tied by differential runs; number_splitter::cut, eos, rest_count are translated"])
+    res.cov["rule"] = ("inputs: all values for <=16-bit domains, boundary patterns (0, all-ones, 2^k, 2^k+-1, ~2^k, alternating) and seeded random words of varying bit density "
+                       "for 32/64-bit functions; cut-width sequences: random compositions of the source width, mixed cut/safe_cut sequences around and past the end, all compositions of 8- and 16-bit sources; "
+                       "distinct = distinct input lines; every input is non-trivial (each exercises the full function)")
+    steps.regenerate(res)
+    lean_step(res, "CdsVerif.Props.C25", thorough, extra_allowed=BV_AXIOMS("C25"))
+    n = 20000 if thorough else 1500
+    exe = steps.build_pure("bits", ["bits.cpp", "bits_generic.cpp"])
+    steps.tie_D(res, exe, [str(res.seed), str(n)], ["eval"], purespec.compare_eval, "bits")
+    exe2 = steps.build_pure("splitters", ["splitters.cpp"])
+    steps.tie_D(res, exe2, ["splitters", str(res.seed), str(2000 if thorough else 150)] + (["full"] if thorough else []), ["seqeval"], purespec.compare_seq, "splitters")
+
+
+def c22(res, thorough):
+    base_cov(res, ["memory orders of the lock word", "reentrant_spin_lock, pool_monitor, injecting_monitor and lock_array have no atomic-step model yet: decided by the history tie and the client's occupancy / pool oracles only",
+                   "back-off timing"],
+             partial=["reentrant release-by-last-unlock, pool_monitor lock return/uniqueness: oracle-checked on explored schedules, not yet theorems"])
+    lean_step(res, "CdsVerif.Props.C22", thorough)
+    n = 20000 if thorough else 2000
+    tie_A(res, "locks", "spin", [{"args": ["--mode", "mixed", "--threads", "4", "--ops", "5", "--variant", "spin"], "cases": n // 2},
+                                 {"args": ["--mode", "enum2" if thorough else "enum1", "--threads", "2", "--ops", "3", "--variant", "spin"], "cases": 20 if thorough else 8}])
+    tie_H(res, "locks", [{"args": ["--mode", "mixed", "--threads", "4", "--ops", "5"], "cases": n},
+                         {"args": ["--mode", "enum2" if thorough else "enum1", "--threads", "2", "--ops", "3"], "cases": 25 if thorough else 10}])
+
+
+def c26(res, thorough):
+    import purespec
+    base_cov(res, ["the counter class is a hand model (30 lines) tied to the real class by differential runs; its per-bit primitive complement64 is translated",
+                   "counter wrap-around at 2^64 (theorems are stated for n < 2^63)"])
+    res.cov["rule"] = ("operation sequences: every Dyck-like prefix (never more decrements than increments) of length 14 (thorough 18), seeded random walks of length 20..420 with varying drift, "
+                       "one climb to 3000 and back; distinct = distinct sequences; every sequence is non-trivial (each checks the closed form after every inc and the undo after every dec)")
+    steps.regenerate(res)
+    lean_step(res, "CdsVerif.Props.C26", thorough)
+    exe = steps.build_pure("splitters", ["splitters.cpp"])
+    steps.tie_D(res, exe, ["counter", str(res.seed), str(3000 if thorough else 300), "18" if thorough else "14"], ["seqeval"], purespec.compare_seq, "counter")
+    # the literal statement ("first n slots are a permutation of 1..n for every n") is false by design of the
+    # Hunt heap: proved as C26_literal_false, replayed here on the implementation
+    rows = steps.tie_D(res, exe, ["counter", "0", "0", "5"], ["seqeval"], lambda i, a, b: None, "counter-literal")
+    for inp, impl, model in rows:
+        if inp.split()[1:] == ["i"] * 5:
+            slots = sorted(int(v.split("/")[0]) for v in impl)
+            if slots != [1, 2, 3, 4, 5]:
+                res.violation("counter:literal-permutation:n=5", {"kind": "pure-input", "input": inp, "impl": impl,
+                                                                     "why": "first 5 slots are %s, not a permutation of 1..5" % slots})
+
+
+def c27(res, thorough):
+    import purespec
+    base_cov(res, ["bucket_no reads the table-size logarithm from an atomic member: it is a parameter of the translated function",
+                   "the rcu and nogc specialisations of SplitListSet carry textual copies of bucket_no/parent_bucket; the translation reads the HP/DHP one, the differential run calls it too"])
+    res.cov["rule"] = ("inputs: seeded random 64-bit hashes of varying magnitude, single bits and low-bit masks, x table-size logarithms 0,1,30..33,63 and i mod 64; "
+                       "distinct = distinct (function, input) lines; all are non-trivial")
+    steps.regenerate(res)
+    lean_step(res, "CdsVerif.Props.C27", thorough, extra_allowed=BV_AXIOMS("C27"))
+    exe = steps.build_pure("splitorder", ["splitorder.cpp"], with_libcds=True)
+    steps.tie_D(res, exe, [str(res.seed), str(20000 if thorough else 1500)], ["eval"], purespec.compare_eval, "splitorder")
+
+
+def BV_AXIOMS(prop):
+    """Per-property allow-list of bv_decide axioms (named in the evidence)."""
+    p = os.path.join(vlib.VERIF, "tools", "bv_axioms.json")
+    if os.path.exists(p):
+        return json.load(open(p)).get(prop, [])
+    return []
+
+
 TABLE = {
+    "C25": ("proof", c25),
+    "C22": ("proof", c22),
+    "C26": ("proof", c26),
+    "C27": ("proof", c27),
     "C09": ("translation_validation", c09),
 }
 
